@@ -72,6 +72,7 @@ def parseAct (w : String) : Option Act :=
   match w.splitOn ":" with
   | ["a", d] => d.toInt?.map .adv
   | ["t", n] => n.toNat?.map .anchors
+  | ["w"] => some .toWake
   | _ => none
 
 def showObs (s : RN) : String × String :=
